@@ -199,6 +199,25 @@ def finish(out, native_replay=None):
         violations += 1
         lines.append(f"VIOLATION property={out.pid} replay={path}")
         lines.append(f"  bounded stand-in clause {sf['name']} failed natively: {sf.get('info', '')[:300]}")
+    # every listed finding of this property is re-exercised on its pinned input on every run: KNOWN-FINDING is printed
+    # while it still fails on this tree (and no longer once it has been repaired)
+    pinned = {}
+    for f in known["findings"]:
+        if f.get("property") != out.pid or not f.get("repro") or f["id"] in known_hits:
+            continue
+        try:
+            import subprocess
+            env = dict(os.environ, PYTHONPATH=REPO, OMP_NUM_THREADS="1", OPENBLAS_NUM_THREADS="1")
+            pr = subprocess.run([NATIVE_PY, "-W", "ignore", os.path.join(VERIF, f["repro"])], capture_output=True,
+                                text=True, env=env, timeout=600)
+            pinned[f["id"]] = {"exit": pr.returncode, "output": (pr.stdout + pr.stderr).strip()[-300:]}
+            if pr.returncode == 1:
+                known_hits.add(f["id"])
+                lines.append(f"KNOWN-FINDING: property={out.pid} {f['what']}")
+        except Exception as e:      # noqa: BLE001
+            pinned[f["id"]] = {"exit": None, "output": f"{type(e).__name__}: {e}"}
+    if pinned:
+        out.extra["known_findings_pinned_reproduction"] = pinned
     if violations:
         code = 1
     elif out.errors:
